@@ -157,4 +157,6 @@ def run(ctx):
     ns = len(ctx.suite_names)
     rep.floor('R16.1', 'export key terms', n_exp, 16 * ns)
     rep.floor('R16.3', 'secret-flow obligations', n_flow, ns * 100)
+    from rules import profile
+    profile.check(ctx, rep, 'R16.P', ['creg_start', 'clog_start', 'creg_finish', 'clog_finish', 'slog_start'])
     return rep
